@@ -7,6 +7,11 @@
 (* accounting step of the model on that generation's record                *)
 (* [done, closed, routines, joined, closeWaiting], with the logged         *)
 (* counter values equal to the model's.                                    *)
+(* Used for the reader-mode scenarios (the application is kafka.Reader);   *)
+(* the cg-mode scenarios are validated against the whole of Group.tla by   *)
+(* GroupTrace.tla, which includes these checks.  The events are the        *)
+(* real-time copies of the hooks (harness/groupdrv/live.go); a Generation  *)
+(* object is identified by <<member, gix>>.                                *)
 (***************************************************************************)
 EXTENDS Integers, Sequences, FiniteSets, TLC, Json, IOUtils
 
@@ -23,36 +28,36 @@ TInit == l = 1 /\ g = <<>>
 
 \* Group.tla Start (tracked: routines++ ; untracked: nothing) / JoinOK's heartbeat Start
 StartEv(e) ==
-  LET k == <<e.m, e.gen>>  r == Get(k) IN
+  LET k == <<e.m, e.gix>>  r == Get(k) IN
   /\ e.tracked = ~r.closed
   /\ IF e.tracked THEN e.routines = r.routines + 1 /\ g' = Put(k, [r EXCEPT !.routines = @ + 1])
                   ELSE g' = Put(k, r)
 
 \* Group.tla FnReturn / HeartbeatReply(FALSE) / HeartbeatStop: bookkeeping of a tracked function
 FnExitEv(e) ==
-  LET k == <<e.m, e.gen>>  r == Get(k) IN
+  LET k == <<e.m, e.gix>>  r == Get(k) IN
   /\ r.routines >= 1 /\ e.routines = r.routines - 1
   /\ e.wasClosed = r.closed
   /\ g' = Put(k, [r EXCEPT !.done = TRUE, !.closed = TRUE, !.routines = @ - 1, !.joined = (r.routines = 1)])
 
 \* Group.tla GenCloseBegin
 CloseEv(e) ==
-  LET k == <<e.m, e.gen>>  r == Get(k) IN
+  LET k == <<e.m, e.gix>>  r == Get(k) IN
   /\ e.routines = r.routines /\ e.wasClosed = r.closed
   /\ g' = Put(k, [r EXCEPT !.done = TRUE, !.closed = TRUE, !.closeWaiting = (r.routines > 0)])
 
 \* Group.tla GenCloseEnd: only once `joined` is closed when there was something to wait for
 ClosedEv(e) ==
-  LET k == <<e.m, e.gen>>  r == Get(k) IN
+  LET k == <<e.m, e.gix>>  r == Get(k) IN
   /\ r.closed /\ (r.closeWaiting => r.joined)
   /\ g' = g
 
 Step(e) ==
   CASE e.ev = "cfg" -> g' = <<>>
-    [] e.ev = "gstart" -> StartEv(e)
-    [] e.ev = "gfnexit" -> FnExitEv(e)
-    [] e.ev = "gclose" -> CloseEv(e)
-    [] e.ev = "gclosed" -> ClosedEv(e)
+    [] e.ev = "gen.start" -> StartEv(e)
+    [] e.ev = "gen.fnexit" -> FnExitEv(e)
+    [] e.ev = "gen.close" -> CloseEv(e)
+    [] e.ev = "gen.closed" -> ClosedEv(e)
     [] OTHER -> g' = g
 
 TNext == l <= Len(Trace) /\ l' = l + 1 /\ Step(Trace[l])
